@@ -74,7 +74,7 @@ impl TryFrom<Vec<u8>> for Rotator {
         Ok(Self {
             source: buf.get_u8(),
             rotator: Rotation3::from_euler_angles(buf.get_f32(), buf.get_f32(), buf.get_f32()),
-            reference: RotationReference::try_from(buf.get_u8()).unwrap(),
+            reference: RotationReference::try_from(buf.get_u8())?,
         })
     }
 }
